@@ -216,3 +216,11 @@ Theorem C03_clip_layout_independent : forall (A : Type) (clipc : A -> option A -
   res_map (@flatten A) (M_clip clipc t1 lo1 hi1) = res_map (@flatten A) (M_clip clipc t2 lo2 hi2).
 Proof. exact (@clip_layout_independent). Qed.
 Print Assumptions C03_clip_layout_independent.
+
+(* A 1-D operand applied along the rows: chopping it to the width of every block (_block_shape_slices) equals pairing
+   column j with element j, for every layout; a wrong length is rejected alike. *)
+Theorem C03_binop_row_refines : forall (A B : Type) (opc : A -> B -> A) (fd : dtype -> dtype) (t : tb A) (other : list B),
+  wf_tb t -> t <> [] ->
+  res_map (@flatten A) (M_binop_row opc fd t other) = S_binop_row opc fd (flatten t) other.
+Proof. exact (@binop_row_refines). Qed.
+Print Assumptions C03_binop_row_refines.
